@@ -266,15 +266,15 @@ def run_case(ctx, name, params):
         seen = []
 
         def mk_p(orig):
-            def compare(self, p, q):
-                v = orig(self, p, q)
+            def compare(self, p, q, *a, **kw):
+                v = orig(self, p, q, *a, **kw)
                 seen.append(("P", list(p), list(q), v, None))
                 return v
             return compare
 
         def mk_e(orig):
-            def compare(self, p, q):
-                v = orig(self, p, q)
+            def compare(self, p, q, *a, **kw):
+                v = orig(self, p, q, *a, **kw)
                 seen.append(("E", list(p), list(q), v, list(self.epsilons)))
                 return v
             return compare
